@@ -429,6 +429,44 @@ def run(ctx):
         chk.ob("dispatch/key/ctrl-%s" % ch, ok and not unk,
                "CTRL+%s %s" % (ch.upper(), "ends the session" if ch == "c" else ("calls %s" % keymap[ch] if ch in keymap else "does nothing")),
                he.loc(), "calls %s, returns %r %s" % (names_, r, unk))
+    # the Enter key clocks the machine on an empty input line and submits anything else (the dispatch above takes the
+    # answer of InputState::is_empty as given): the real is_empty says "empty" for the line without characters only - a
+    # line of blanks is submitted (and rejected with a notification), it is not a clock key
+    ieb = p.need_body(IS + "::is_empty")
+    in_names = p.field_names(IS)
+    bad_ie = []
+    for chars in ((), (" ",), ("\t",), (" ", " ", " "), ("x",), (" ", "x"), ("\u3000",), ("q", "u", "i", "t")):
+        Ii = absint.Interp(p)
+        Ii.unroll = 8
+        sti = absint.State()
+        ed = shapes.build(p, IS, shapes.top_leaf, (), {"input": Arr([ord(c_) for c_ in chars])})
+        ea_ = Ii.new_alloc(sti, "editor", ed)
+        ri = Ii.run_body(ieb, [Ref(ea_, (), False)], sti, 0)
+        want_i = 1 if not chars else 0
+        if ri not in (want_i, bool(want_i)) or isinstance(ri, frozenset):
+            bad_ie.append("input %r: is_empty() = %r" % ("".join(chars), ri))
+    chk.ob("dispatch/enter/is-empty", not bad_ie,
+           "the Enter key is the clock key exactly when the input line has no characters; a line of blanks is submitted like "
+           "any other text", ieb.loc(), "; ".join(bad_ie[:3]) or "8 input lines",
+           "A4 of InputState::is_empty on concrete input lines")
+    # likewise the notification's own accessors (taken as given by the dispatch analysis): "empty" means no text is held,
+    # clearing drops the text
+    NS = "B::tui::notification::NotificationState"
+    bad_ns = []
+    for label_, cur_, want_ in (("without text", En({0: ()}), 1), ("with text", En({1: (Str("Invalid input"),)}), 0)):
+        In_ = absint.Interp(p)
+        stn_ = absint.State()
+        na_ = In_.new_alloc(stn_, "note", shapes.build(p, NS, shapes.top_leaf, (), {"current": cur_}))
+        rn_ = In_.run_body(p.need_body(NS + "::is_empty"), [Ref(na_, (), False)], stn_, 0)
+        if rn_ not in (want_, bool(want_)) or isinstance(rn_, frozenset):
+            bad_ns.append("is_empty() %s = %r" % (label_, rn_))
+        In_.run_body(p.need_body(NS + "::clear"), [Ref(na_, (), True)], stn_, 0)
+        after_ = In_.load(stn_, na_, (p.field_index(NS, "current"),))
+        if after_ != En({0: ()}):
+            bad_ns.append("after clear() %s: %r" % (label_, after_))
+    chk.ob("dispatch/notification-accessors", not bad_ns,
+           "a notification counts as shown exactly while it holds a text, and dismissing it drops the text",
+           p.need_body(NS + "::is_empty").loc(), "; ".join(bad_ns[:3]) or "2 states", "A4 of NotificationState::is_empty / clear")
     # a pending notification swallows any key
     for label, code, mods in (("ctrl-r", En({ci["Char"]: (ord("r"),)}), CONTROL_BITS), ("enter", En({ci["Enter"]: ()}), 0),
                               ("char", En({ci["Char"]: (ord("x"),)}), 0)):
